@@ -7,7 +7,7 @@ import pickle
 import sqlite3
 
 from ..cfg import def_value, explore_defs, reaching_defs, witness
-from ..engine import AnalysisError, PropertySpec, norm
+from ..engine import AnalysisError, MechanismMissing, PropertySpec, norm
 from ..pyutil import call_name, calls, const_str, dotted, is_name, literal, method_name, walk_local
 from ..sqlfacts import (
     create_table_layout,
@@ -172,7 +172,7 @@ def r01_1(ctx, rep):
     cfg = pc.parse_cfg
     sel, upd, ins = _models_events(pc)
     if not sel or not ins:
-        raise AnalysisError(R, "lookup SELECT / INSERT on table models not found in parse()")
+        raise MechanismMissing(R, "lookup SELECT / INSERT on table models not found in parse()")
     # INSERT: which columns carry the key
     key_cols = {}
     for e in ins:
@@ -193,7 +193,7 @@ def r01_1(ctx, rep):
     # CREATE TABLE models: primary key
     creates = [e for e in pc.events("struct", "write") if e.detail.upper().startswith("CREATE TABLE") and table_of(e.detail) == "models"]
     if not creates:
-        raise AnalysisError(R, "CREATE TABLE models not found")
+        raise MechanismMissing(R, "CREATE TABLE models not found")
     for e in creates:
         lay = create_table_layout(e.detail)
         pk = set(lay[2]) if lay else set()
@@ -260,7 +260,7 @@ def r01_2(ctx, rep):
     # hit path: loads(<var>) where <var> is unpacked from the fetch of the lookup SELECT
     loads = [n for n in cfg.nodes if n.kind == "stmt" and any(call_name(c) == "pickle.loads" for c in calls(n.ast))]
     if not loads:
-        raise AnalysisError(R, "pickle.loads site not found in parse()")
+        raise MechanismMissing(R, "pickle.loads site not found in parse()")
     for n in loads:
         c = [c for c in calls(n.ast) if call_name(c) == "pickle.loads"][0]
         arg = c.args[0] if c.args else None
@@ -319,7 +319,7 @@ def _tree_var(pc, rep, R):
         for k in kinds:
             if k.startswith("blob:"):
                 return k.split(":", 1)[1], e
-    raise AnalysisError(R, "INSERT of a pickled tree not found")
+    raise MechanismMissing(R, "INSERT of a pickled tree not found")
 
 
 @SPEC.rule(
@@ -462,7 +462,7 @@ def r01_5(ctx, rep):
     var, _ins = _tree_var(pc, rep, R)
     loads = [n for n in cfg.nodes if n.kind == "stmt" and any(call_name(c) == "pickle.loads" for c in calls(n.ast))]
     if not loads:
-        raise AnalysisError(R, "pickle.loads site not found")
+        raise MechanismMissing(R, "pickle.loads site not found")
     for ln in loads:
         hs = [cfg.nodes[s] for s in cfg.succ[ln.id] if cfg.nodes[s].kind == "handler"]
         classes, unknown = [], []
@@ -500,7 +500,7 @@ def r01_6(ctx, rep):
     cfg = pc.parse_cfg
     integ = [e for e in pc.events("parse", "read") if "INTEGRITY_CHECK" in e.detail.upper()]
     if not integ:
-        raise AnalysisError(R, "PRAGMA integrity_check not found in parse()")
+        raise MechanismMissing(R, "PRAGMA integrity_check not found in parse()")
     first_connect = pc.events("parse", "connect")
     path_expr = norm(first_connect[0].call.args[0]) if first_connect and first_connect[0].call.args else None
     for e in integ:
@@ -576,7 +576,7 @@ def r01_8(ctx, rep):
                 creates[lay[0]] = (lay[1], e)
     infos = [e for e in pc.events("struct", "read") if "TABLE_INFO" in e.detail.upper()]
     if not infos:
-        raise AnalysisError(R, "PRAGMA table_info not found")
+        raise MechanismMissing(R, "PRAGMA table_info not found")
     cfg = pc.struct_cfg
     for e in infos:
         table = table_of(e.detail)
@@ -649,7 +649,7 @@ def r01_7(ctx, rep):
                "statements %s run outside any handler for sqlite3.Error; a database file removed or corrupted "
                "after this process initialised it makes parse() raise instead of parsing" % unprotected)
     if n < 2:
-        raise AnalysisError(R, "fewer than 2 cache transactions found on the initialised path")
+        raise MechanismMissing(R, "fewer than 2 cache transactions found on the initialised path")
 
 
 # ---------------------------------------------------------------------------
